@@ -810,3 +810,16 @@ package util
 //@   loop 1 invariant idx == iter1 && len(keys) == len(cc.Changes) && len(nodes) == len(cc.Changes) && len(keysStr) == len(cc.Changes) && fresh(keys) && fresh(nodes) && fresh(keysStr)
 //@   loop 1 invariant forall j :: 0 <= j && j < idx ==> nodes[j] != nil && str(keys[j]) == NodeHB(nodes[j], heapof(OriginTracker.Origin))
 //@   loop 2 invariant includeDeletes
+
+// ================= C14 / C17: sync repair puts donor nodes back under the keys they are referenced by =================
+//
+// MergeDB hands every (key, node) pair of the donor store to this handler. The trie refers to the
+// missing nodes by those keys, so the repair works only if the node is still addressed by the same
+// key afterwards, and the donor's node objects must not be modified.
+//@ func (*MerklePatriciaTrie).MergeDB$1 returns (err)
+//@   props C14 C17
+//@   mode wrap
+//@   holds mpt.mutex W
+//@   requires mpt != nil && node != nil && Canon(node) && PathsWF(node) && CollectorWF(mpt) && str(key) == NodeHB(node, heapof(OriginTracker.Origin))
+//@   ensures err == nil ==> NodeHB(node, heapof(OriginTracker.Origin)) == str(key)                                      #donor-node-keeps-its-key
+//@   ensures heapof(OriginTracker.Origin) == old(heapof(OriginTracker.Origin))                                          #donor-node-is-not-modified
